@@ -337,7 +337,7 @@ class Engine:
                     for lp in (item.get("loops") or []) if isinstance(item, dict) else []:
                         name = lp.get("name", "")
                         fn = name.rsplit(".", 1)[0]
-                        if name in have or re.match(r"^(\w*?)F_", fn) or fn.startswith(("ll2c_", "X_")):
+                        if name in have or re.match(r"^(\w*?)F_", fn) or fn.startswith("ll2c_"):
                             continue
                         sets.append(f"{name}:{obl.harness_unwind}")
             except Exception as e:  # noqa
